@@ -2,6 +2,7 @@ package c11
 
 import (
 	"fmt"
+	"net"
 	"time"
 
 	"github.com/libp2p/go-libp2p/core/network"
@@ -79,7 +80,7 @@ func (w *world) judgeReserve(cl *cli, ips []string, r rsvResult, faulted bool, g
 	aclDeny := c.denyRsv == cl.idx
 	cnt := m.count(cl.idx, ips, r.t0, r.t1, gone)
 	// in a batch, reservations granted concurrently may have been counted before this request
-	mayExtra, mayExtraIP := 0, 0
+	mayExtra, mayExtraIP, mayExtraAS := 0, 0, 0
 	for q, qips := range granted {
 		if q == cl.idx || m.maybeThere(q, r.t0) {
 			continue
@@ -90,6 +91,9 @@ func (w *world) judgeReserve(cl *cli, ips []string, r rsvResult, faulted bool, g
 				mayExtraIP++
 				break
 			}
+		}
+		if sameAS(qips, ips) {
+			mayExtraAS++
 		}
 	}
 	switch r.status {
@@ -107,10 +111,12 @@ func (w *world) judgeReserve(cl *cli, ips []string, r rsvResult, faulted bool, g
 				w.violate("C11/reservation-cap-exceeded/total", "%s granted although %d other reservations are live (MaxReservations=%d): %s", name, cnt.def, c.maxRes, w.rsvDump())
 			case len(ips) == 1 && cnt.defIP+1 > c.perIP:
 				w.violate("C11/reservation-cap-exceeded/per-ip", "%s granted from %s although %d other live reservations were made from that IP (MaxReservationsPerIP=%d): %s", name, ips[0], cnt.defIP, c.perIP, w.rsvDump())
+			case len(ips) == 1 && cnt.defAS+1 > c.perASN:
+				w.violate("C11/reservation-cap-exceeded/per-asn", "%s granted from %s (AS%d) although %d other live reservations were made from that AS (MaxReservationsPerASN=%d): %s", name, ips[0], asnOf(ips[0]), cnt.defAS, c.perASN, w.rsvDump())
 			case cnt.def+cnt.c2+1 > c.maxRes:
 				w.c2Seen = true
 				w.violate("C11/reservation-cap-exceeded/after-refused-refresh", "%s granted although %d other reservations are live (MaxReservations=%d); %d of them had a refresh refused earlier and still serve CONNECTs: %s", name, cnt.def+cnt.c2, c.maxRes, cnt.c2, w.rsvDump())
-			case len(ips) == 1 && cnt.defIP+cnt.c2IP+1 > c.perIP:
+			case len(ips) == 1 && (cnt.defIP+cnt.c2IP+1 > c.perIP || cnt.defAS+cnt.c2AS+1 > c.perASN):
 				w.c2Seen = true
 				w.violate("C11/reservation-cap-exceeded/after-refused-refresh", "%s granted from %s although %d other live reservations were made from that IP (MaxReservationsPerIP=%d); %d of them had a refresh refused earlier and still serve CONNECTs: %s", name, ips[0], cnt.defIP+cnt.c2IP, c.perIP, cnt.c2IP, w.rsvDump())
 			}
@@ -122,14 +128,17 @@ func (w *world) judgeReserve(cl *cli, ips []string, r rsvResult, faulted bool, g
 			w.violate("C11/reservation-expiry-wrong", "reservation of %s expires at unix %d, requested in [%d,%d] with TTL %v", name, r.expire, w.unix(r.t0), w.unix(r.t1), c.ttl)
 		}
 	case pbv2.Status_RESERVATION_REFUSED:
-		if !faulted && cnt.may+mayExtra < c.maxRes && (len(ips) == 0 || cnt.mayIP+mayExtraIP < c.perIP) {
-			w.violate("C11/reservation-refused-below-caps", "%s refused from %v although at most %d other reservations can be known to the relay (MaxReservations=%d), %d from that IP (MaxReservationsPerIP=%d): %s",
-				name, ips, cnt.may+mayExtra, c.maxRes, cnt.mayIP+mayExtraIP, c.perIP, w.rsvDump())
+		if !faulted && cnt.may+mayExtra < c.maxRes && (len(ips) == 0 || (cnt.mayIP+mayExtraIP < c.perIP && cnt.mayAS+mayExtraAS < c.perASN)) {
+			w.violate("C11/reservation-refused-below-caps", "%s refused from %v although at most %d other reservations can be known to the relay (MaxReservations=%d), %d from that IP (MaxReservationsPerIP=%d), %d from that AS (MaxReservationsPerASN=%d): %s",
+				name, ips, cnt.may+mayExtra, c.maxRes, cnt.mayIP+mayExtraIP, c.perIP, cnt.mayAS+mayExtraAS, c.perASN, w.rsvDump())
 		}
-		if cnt.may >= c.maxRes {
+		switch {
+		case cnt.may >= c.maxRes:
 			w.o.Probe("reserve-refused-total-cap")
-		} else {
+		case cnt.mayIP >= c.perIP:
 			w.o.Probe("reserve-refused-per-ip-cap")
+		case cnt.mayAS >= c.perASN:
+			w.o.Probe("reserve-refused-per-asn-cap")
 		}
 	case pbv2.Status_PERMISSION_DENIED:
 		if !cl.relayed && !aclDeny && !faulted {
@@ -269,6 +278,9 @@ func (w *world) doConnect(op opT) string {
 	hop := hopNormal
 	if op.fault == faultHop {
 		hop = op.hop
+		if (hop == hopResetDelayed || hop == hopCloseDelayed) && !dst.realStop {
+			dst.script = []stopPlan{stopSlowAccept}
+		}
 	}
 	before := w.firedCounts()
 	w.arm(op, src, dst)
@@ -287,6 +299,11 @@ func (w *world) doConnect(op opT) string {
 	var in *incoming
 	if len(dst.inbox) > inboxBefore {
 		in = dst.inbox[inboxBefore]
+	}
+	if hop == hopResetDelayed || hop == hopCloseDelayed {
+		// let the slow destination answer and the relay finish
+		simrt.TimeSleep(2 * time.Second)
+		simrt.WaitIdle()
 	}
 	stopFault := op.fault == faultStop && in != nil && in.plan != stopAccept
 	faulted := fired || op.fault == faultHop || stopFault
@@ -676,7 +693,7 @@ func (w *world) doMove(op opT) string {
 	}
 	simrt.WaitIdle()
 	w.applyDisc(disc, nil)
-	if got := w.ipsSeen(cl); len(got) != 1 || got[0] != newIP {
+	if got := w.ipsSeen(cl); len(got) != 1 || got[0] != net.ParseIP(newIP).String() {
 		w.o.Trouble = fmt.Sprintf("after the move the relay sees %s at %v, expected %s", c.name(cl.idx), got, newIP)
 	}
 	if op.refresh {
